@@ -16,6 +16,7 @@ package main
 import (
 	"fmt"
 	"os"
+	"strings"
 	"sync"
 
 	"verif/engine/core"
@@ -45,6 +46,16 @@ func initFamilies(tier string) []*core.Family {
 func main() {
 	if os.Getenv("C04_CHILD") != "" {
 		childMain()
+		return
+	}
+	if fam := os.Getenv("C04_LABELS"); fam != "" {
+		for _, f := range initFamilies(os.Getenv("C04_TIER")) {
+			if f.Name == fam {
+				for i := uint64(0); i < f.Size; i++ {
+					fmt.Println(i, strings.SplitN(f.Show(i), "\n", 2)[0])
+				}
+			}
+		}
 		return
 	}
 	if os.Getenv("C04_LISTFNS") != "" {
